@@ -49,12 +49,13 @@ claim("C13",
       "symbolic execution over a heap model with loop invariants + z3 (quantified arrays)", "DESIGN.md §3 C13")
 
 claim("C01",
-      "Cluster-algebra pipeline of get_clusters under contract: _localize_clusters (5 nested loops, invariants with ghost done-sets: result pairwise disjoint, subsets of the input, "
-      "no atom lost, duplicate-free, in range), _clean_clusters (kept clusters are non-empty duplicate-free subsets forming one largest bonded component under the DBSCAN contract, "
-      "disjointness preserved), merge (only same-species atoms of the smaller cluster join; species of every atom listed), Cluster.__init__. All for symbolic numbers of atoms and clusters.",
-      "A-SK (DBSCAN = connected components, raises on empty input), A-NP; the heuristic periodic search (get_region) is under an assumed contract; crash-freedom of PeriodicFinder and the prototype-cell "
-      "typestate are not covered; the main loop / _merge_clusters loop are covered only as far as listed in evidence.unproved_conjuncts.",
-      "symbolic execution over a heap model with loop invariants + z3 (quantified arrays); native small-scope replay for refutations", "DESIGN.md §3 C01")
+      "The whole Python pipeline of get_clusters is under contract for symbolic numbers of atoms and clusters: set-up on a deep copy (every cell/pbc path establishes the loop invariant; ValueError exactly for a zero "
+      "periodic vector; input never mutated; RNG seeded with the given seed), main loop (invariant: every cluster built so far is in range, duplicate-free, non-empty, species cover its atoms, carries the clustering radii/threshold; "
+      "the set of unvisited atoms strictly shrinks), _merge_clusters (while loop invariant over isolated+pending clusters; merged clusters by the contract of the inner merge), _localize_clusters (5 nested loops, ghost done-sets: "
+      "pairwise disjoint, subsets, no atom lost), _clean_clusters (kept clusters = one largest bonded component under the DBSCAN contract), merge, Cluster.__init__; the post-condition of get_clusters is proved from the callee contracts.",
+      "The periodic search is an assumed contract (A-REGION: get_region returns None or a region with basis indices in range, and a mask containing the seed); its crash-freedom and the prototype-cell periodicity (2 or 3) "
+      "are not covered (L-HEUR); termination of _merge_clusters not proved; A-SK (DBSCAN), A-NP, A-ASE; determinism = seeded RNG + no other randomness reachable through the modelled names (np.random.* other than default_rng is rejected).",
+      "symbolic execution over a heap model with loop invariants + z3 (quantified arrays); native small-scope replay for refutations", "DESIGN.md I.1 / II.3 C01")
 
 claim("C09",
       "get_dimensionality and geometry.get_clusters are executed symbolically from their real source (symbolic cell, pbc, atom count; all four parameter shapes) against the contracts of "
